@@ -845,6 +845,201 @@ static void runHttpClient(const Cell &c, CellOut &o, const string &ctok, const s
   relayJson(o, relay, ctok, stok);
 }
 
+// ---- iora HttpClient, two requests on ONE client object (sequence cells)
+// The peer listens on one port and serves whatever arrives: a connection that opens with a TLS
+// ClientHello is served over TLS (when the peer has a certificate: "dual"), anything else as clear-text
+// HTTP; keep-alive, one thread per connection. It records, per request, whether it arrived over TLS.
+struct SeqReq { bool tls; string text; };
+class SeqHttpPeer
+{
+public:
+  std::vector<SeqReq> reqs;
+  int conns = 0, tlsConns = 0, hsFail = 0;
+  string startErr;
+
+  bool start(const PeerCfg &cfg, bool dual)
+  {
+    _cfg = cfg;
+    if (dual)
+    {
+      _ctx = peerCtx(cfg, true, startErr);
+      if (!_ctx) return false;
+    }
+    _lfd = listenLoopback(_port);
+    if (_lfd < 0) { startErr = "listen"; return false; }
+    _th = std::thread([this] { loop(); });
+    return true;
+  }
+  uint16_t port() const { return _port; }
+  void stop()
+  {
+    _stop = true;
+    if (_th.joinable()) _th.join();
+    for (auto &w : _workers) if (w.joinable()) w.join();
+    _workers.clear();
+    if (_lfd >= 0) { ::close(_lfd); _lfd = -1; }
+    if (_ctx) { SSL_CTX_free(_ctx); _ctx = nullptr; }
+  }
+  ~SeqHttpPeer() { stop(); }
+
+private:
+  PeerCfg _cfg;
+  SSL_CTX *_ctx = nullptr;
+  int _lfd = -1;
+  uint16_t _port = 0;
+  std::thread _th;
+  std::vector<std::thread> _workers;
+  std::atomic<bool> _stop{false};
+  std::mutex _m;
+
+  void loop()
+  {
+    while (!_stop)
+    {
+      if (!waitReadable(_lfd, 10)) continue;
+      int fd = ::accept4(_lfd, nullptr, nullptr, SOCK_CLOEXEC);
+      if (fd < 0) continue;
+      { std::lock_guard<std::mutex> g(_m); conns++; }
+      _workers.emplace_back([this, fd] { serve(fd); ::close(fd); });
+    }
+  }
+  string response(bool close) const
+  {
+    return "HTTP/1.1 200 OK\r\nContent-Type: text/plain\r\nContent-Length: " + std::to_string(_cfg.myToken.size()) +
+           "\r\nConnection: " + (close ? "close" : "keep-alive") + "\r\n\r\n" + _cfg.myToken;
+  }
+  bool waitIn(int fd, SSL *ssl, int ms)
+  {
+    double end = vf::nowMs() + ms;
+    while (!_stop && vf::nowMs() < end)
+    {
+      if (ssl && SSL_pending(ssl) > 0) return true;
+      if (waitReadable(fd, 20)) return true;
+    }
+    return false;
+  }
+  void serve(int fd)
+  {
+    setTimeouts(fd, 3000);
+    if (!waitIn(fd, nullptr, 4000)) return;
+    unsigned char first = 0;
+    if (::recv(fd, &first, 1, MSG_PEEK) != 1) return;
+    SSL *ssl = nullptr;
+    if (first == 0x16)
+    {
+      if (!_ctx)
+      { // a TLS client reached a peer that only speaks clear-text HTTP
+        char junk[2048];
+        (void)!::recv(fd, junk, sizeof junk, 0);
+        string r = response(true);
+        sendAll(fd, r.data(), r.size());
+        { std::lock_guard<std::mutex> g(_m); hsFail++; }
+        waitIn(fd, nullptr, 500);
+        return;
+      }
+      ssl = SSL_new(_ctx);
+      SSL_set_fd(ssl, fd);
+      ERR_clear_error();
+      if (SSL_accept(ssl) != 1)
+      {
+        ERR_clear_error();
+        { std::lock_guard<std::mutex> g(_m); hsFail++; }
+        SSL_free(ssl);
+        return;
+      }
+      { std::lock_guard<std::mutex> g(_m); tlsConns++; }
+    }
+    char buf[4096];
+    for (;;)
+    {
+      string req;
+      bool eof = false;
+      while (req.find("\r\n\r\n") == string::npos)
+      {
+        if (!waitIn(fd, ssl, 4000)) { eof = true; break; }
+        int n = ssl ? SSL_read(ssl, buf, sizeof buf) : int(::recv(fd, buf, sizeof buf, 0));
+        if (n <= 0) { eof = true; break; }
+        req.append(buf, size_t(n));
+      }
+      if (!req.empty()) { std::lock_guard<std::mutex> g(_m); reqs.push_back({ssl != nullptr, req}); }
+      if (eof) break;
+      bool close = req.find("Connection: close") != string::npos;
+      string r = response(close);
+      bool ok = ssl ? SSL_write(ssl, r.data(), int(r.size())) > 0 : sendAll(fd, r.data(), r.size());
+      if (!ok || close) { if (ssl) SSL_shutdown(ssl); waitIn(fd, ssl, 200); break; }
+    }
+    if (ssl) { ERR_clear_error(); SSL_free(ssl); }
+  }
+};
+
+static void runHttpClientSeq(const Cell &c, CellOut &o, const string &ctok, const string &stok, const string &ctok2)
+{
+  applyDefaultStoreEnv(c);
+  SeqHttpPeer peer;
+  PeerCfg pc = peerCfgOf(c, true, stok, ctok, true);
+  if (!peer.start(pc, c.is("speer", "dual"))) { o.s("harness_error", "peer start: " + peer.startErr); return; }
+  Relay relay;
+  if (!relay.start(peer.port())) { o.s("harness_error", "relay start"); return; }
+
+  HttpClient::Config hc;
+  hc.connectTimeout = std::chrono::milliseconds(5000);
+  hc.requestTimeout = std::chrono::milliseconds(5000);
+  hc.reuseConnections = c.n("reuse", 1) != 0;
+  auto tlsOf = [&](const char *v, const char *ca) {
+    HttpClient::TlsConfig tc;
+    tc.verifyPeer = c.is(v, "on");
+    if (!c.file(ca).empty()) tc.caFile = g_pki.cert(c.file(ca));
+    return tc;
+  };
+  struct R { int status = 0; bool tok = false; string err; } r[2];
+  {
+    HttpClient cli(hc);
+    bool settls = c.n("settls", 0) != 0;
+    cli.setTlsConfig(settls ? tlsOf("verify1", "cafile1") : tlsOf("verify", "cafile"));
+    string base = c.s("host", "127.0.0.1") + ":" + std::to_string(relay.port()) + "/t/";
+    const string toks[2] = {ctok, ctok2};
+    const string schemes[2] = {c.s("s1", "https"), c.s("s2", "https")};
+    for (int i = 0; i < 2; i++)
+    {
+      if (i == 1 && settls) cli.setTlsConfig(tlsOf("verify", "cafile")); // the configuration in force for request 2
+      try
+      {
+        auto resp = cli.get(schemes[i] + "://" + base + toks[i]);
+        r[i].status = resp.statusCode;
+        r[i].tok = resp.body.find(stok) != string::npos;
+      }
+      catch (const std::exception &e) { r[i].err = e.what(); }
+      catch (...) { r[i].err = "unknown exception"; }
+    }
+  }
+  waitUntil([&] { return relay.active.load() == 0; }, 1500);
+  relay.stop();
+  peer.stop();
+  o.b("start_ok", true);
+  o.b("watchdog", false);
+  for (int i = 0; i < 2; i++)
+  {
+    string k = "r" + std::to_string(i + 1);
+    o.i(k + "_status", r[i].status);
+    o.b(k + "_body_has_token", r[i].tok);
+    o.s(k + "_err", r[i].err);
+  }
+  string pj = "{\"conns\":" + std::to_string(peer.conns) + ",\"tls_conns\":" + std::to_string(peer.tlsConns) +
+              ",\"hs_fail\":" + std::to_string(peer.hsFail) + ",\"reqs\":[";
+  bool firstReq = true;
+  for (auto &q : peer.reqs)
+  {
+    int which = q.text.find(ctok2) != string::npos ? 2 : (q.text.find(ctok) != string::npos ? 1 : 0);
+    pj += string(firstReq ? "" : ",") + "{\"tok\":" + std::to_string(which) + ",\"tls\":" + (q.tls ? "true" : "false") + "}";
+    firstReq = false;
+  }
+  o.j("peer", pj + "]}");
+  auto has = [](const string &h, const string &n) { return h.find(n) != string::npos; };
+  o.j("relay", "{\"conns\":" + std::to_string(relay.conns) + ",\"c2s\":" + std::to_string(relay.c2s.size()) + ",\"s2c\":" + std::to_string(relay.s2c.size()) +
+                 ",\"c2s_has_tok1\":" + (has(relay.c2s, ctok) ? "true" : "false") + ",\"c2s_has_tok2\":" + (has(relay.c2s, ctok2) ? "true" : "false") +
+                 ",\"s2c_has_stok\":" + (has(relay.s2c, stok) ? "true" : "false") + "}");
+}
+
 // ---- iora Transport as the TLS server
 static void runTransportServer(const Cell &c, CellOut &o, const string &ctok, const string &stok)
 {
@@ -1068,6 +1263,7 @@ int main(int argc, char **argv)
     {
       if (entry == "transport-client") runTransportClient(c, o, ctok, stok);
       else if (entry == "http-client") runHttpClient(c, o, ctok, stok);
+      else if (entry == "http-client-seq") { string ctok2 = makeToken(rng); runHttpClientSeq(c, o, ctok, stok, ctok2); }
       else if (entry == "transport-server") runTransportServer(c, o, ctok, stok);
       else if (entry == "http-server") runHttpServer(c, o, ctok, stok);
       else if (entry == "raw-raw") runRawRaw(c, o, ctok, stok);
